@@ -144,7 +144,7 @@ int _vnacal_new_solve_simple(vnacal_new_solve_state_t *vnssp,
 		if (determinant == 0.0 || !isnormal(cabs(determinant))) {
 		    _vnacal_error(vcp, VNAERR_MATH, "vnacal_new_solve: "
 			    "singular linear system");
-		    return -1;
+		    goto out;
 		}
 	    } else {
 		int rank;
@@ -154,7 +154,7 @@ int _vnacal_new_solve_simple(vnacal_new_solve_state_t *vnssp,
 		if (rank < unknowns) {
 		    _vnacal_error(vcp, VNAERR_MATH, "vnacal_new_solve: "
 			    "singular linear system");
-		    return -1;
+		    goto out;
 		}
 	    }
 	    /*
@@ -171,7 +171,7 @@ int _vnacal_new_solve_simple(vnacal_new_solve_state_t *vnssp,
 	     */
 	    if (vs_update_v_matrices("vnacal_new_solve", vnssp, sindex,
 			&x_vector[offset], unknowns) == -1) {
-		return -1;
+		goto out;
 	    }
 	    sum_dx_squared = 0.0;
 	    for (int i = 0; i < x_length; ++i) {
